@@ -8,7 +8,7 @@ EXPLANATION = (
     "parameters whose first block has no label and whose last block is empty, and the same module without header and memory model); "
     "the visited / emitted sequences must equal the SPIR-V logical layout order computed from the module value. The struct "
     "declarations are read so that a new instruction-holding field cannot stay outside the abstract module.")
-EXHAUSTIVE = True
+EXHAUSTIVE = False     # the abstract inputs are a stated finite scope, not the whole input space
 
 
 def run(ctx, chk):
